@@ -872,6 +872,23 @@ fn main() {
                 eprintln!("vx: LOST-ANCHOR selector `{}` matches {} items in {}", sel.raw, found.len(), file);
                 std::process::exit(3);
             }
+            // requested methods must exist in at least one of the matching impl blocks
+            if sel.kind == "impl" {
+                if let Some(o) = &sel.only {
+                    let mut present_all = BTreeSet::new();
+                    for it in found.iter() {
+                        if let Item::Impl(im) = **it {
+                            for x in im.items.iter() { if let ImplItem::Fn(f) = x { present_all.insert(f.sig.ident.to_string()); } }
+                        }
+                    }
+                    for n in o {
+                        if !present_all.contains(n) {
+                            eprintln!("vx: LOST-ANCHOR method `{}` of selector `{}` not found in {}", n, sel.raw, file);
+                            std::process::exit(3);
+                        }
+                    }
+                }
+            }
             for it in found {
                 let mut item: Item = (*it).clone();
                 // method selection inside impl blocks
@@ -886,14 +903,6 @@ fn main() {
                         }
                         _ => true,
                     });
-                    if let Some(o) = &sel.only {
-                        for n in o {
-                            if !present.contains(n) && found_len_one(&sel) {
-                                eprintln!("vx: LOST-ANCHOR method `{}` of selector `{}` not found in {}", n, sel.raw, file);
-                                std::process::exit(3);
-                            }
-                        }
-                    }
                     if im.items.iter().all(|x| !matches!(x, ImplItem::Fn(_))) && sel.only.is_some() {
                         continue; // this impl block has none of the requested methods
                     }
@@ -939,6 +948,4 @@ fn main() {
     println!("{}", serde_json::to_string(&json!({"items": out_items, "log": log})).unwrap());
 }
 
-fn found_len_one(_s: &Selector) -> bool {
-    true
-}
+
